@@ -1,3 +1,4 @@
+import ast
 import tokenize
 from pathlib import Path
 
@@ -10,6 +11,13 @@ from inline_snapshot._utils import simple_token
 from inline_snapshot._utils import value_to_token
 
 from ._utils import ignore_tokens
+
+
+def _same_ast(code_a, code_b):
+    try:
+        return ast.dump(ast.parse(code_a)) == ast.dump(ast.parse(code_b))
+    except SyntaxError:
+        return False
 
 
 class SourceFile:
@@ -26,7 +34,12 @@ class SourceFile:
         if self._source is None or enforce_formatting():
             return text
         else:
-            return format_code(text, Path(self._source.filename))
+            formatted = format_code(text, Path(self._source.filename))
+            if not _same_ast(text, formatted):
+                # the formatter works on modules, a lone string is handled
+                # like a docstring there and its whitespace gets stripped
+                return text
+            return formatted
 
     def asttokens(self):
         return self._source.asttokens()
